@@ -30,6 +30,9 @@ Want(c) == c \in ToSet(Tr.want)
 Clauses ==
   IF Tr.status # "ok" THEN {"C04." \o Tr.status}
   ELSE IF Tr.parse # "ok" THEN {"C05.unparseable"}
+  \* known finding (stated with the properties): two classes sharing a local name get the same shape label, and both shapes come
+  \* out with that one label and without their constraints - nothing else can be judged on such a run
+  ELSE IF Tr.collide THEN {"KF.C05.samelocalname", "KF.C02.samelocalname"}
   ELSE (IF Want("C01") THEN C!C01(Obs) ELSE {}) \cup
        (IF Want("C02") THEN C!C02(Obs) \cup (IF DupLines THEN {"C02.dup"} ELSE {}) ELSE {}) \cup
        (IF Want("C03") THEN C!C03(Obs) \cup C!C03Local(Obs) ELSE {}) \cup
